@@ -92,6 +92,17 @@ Definition rinit (x0 y0 w h : Z) : rstate T :=
       vb (repeat (mkRGBA 0 0 0 0) 64) 0 0 0 0 false 0 zeroT zeroT (PFlat (mkRGBA 0 0 0 0))
       (repeat (mkRGBA 0 0 0 0) 64) (repeat 0 64) zeroT zeroT zeroT zeroT [].
 
+(* SetRasterizer on a Renderer that is already in use: the rectangle is replaced and the scale / bias are
+   recomputed from the current viewBox; everything else is kept *)
+Definition set_rasterizer (s : rstate T) (x0 y0 w h : Z) : rstate T :=
+  let '(x0, y0, w, h) := if (w <=? 0) || (h <=? 0) then (0, 0, 0, 0) else (x0, y0, w, h) in
+  let vb := r_vb s in
+  mkR T x0 y0 w h
+      (n_div N (n_ofZ N w) (n_sub N (n_of32 N (vmaxx vb)) (n_of32 N (vminx vb)))) (n_neg N (n_of32 N (vminx vb)))
+      (n_div N (n_ofZ N h) (n_sub N (n_of32 N (vmaxy vb)) (n_of32 N (vminy vb)))) (n_neg N (n_of32 N (vminy vb)))
+      vb (r_pal s) (r_lod0 s) (r_lod1 s) (r_csel s) (r_nsel s) (r_disabled s) (r_pst s) (r_psx s) (r_psy s) (r_paint s)
+      (r_creg s) (r_nreg s) (z_penx s) (z_peny s) (z_firstx s) (z_firsty s) (r_log s).
+
 Definition upd_regs (s : rstate T) (csel nsel : Z) (creg : list rgba) (nreg : list f32) : rstate T :=
   mkR T (r_x0 s) (r_y0 s) (r_w s) (r_h s) (r_scx s) (r_bx s) (r_scy s) (r_by s) (r_vb s) (r_pal s)
       (r_lod0 s) (r_lod1 s) csel nsel (r_disabled s) (r_pst s) (r_psx s) (r_psy s) (r_paint s)
